@@ -738,7 +738,10 @@ fn run_reader(plan: &Plan, image: &[u8], verbose: bool) -> Report {
         h(plan.run);
     }
     let (ref_consumed, ref_desc) = match &reference {
-        Reference::Ok { consumed, digest, .. } => (*consumed, format!("ok:{:016x}", digest)),
+        // For a well-formed file "the needed data" is everything up to the end of the last frame
+        // (the same end that C13 uses), even if this build of the library happens to leave the tail
+        // of the last chunk unread.
+        Reference::Ok { consumed, digest, .. } => ((*consumed).max(if map.complete { map.end } else { 0 }), format!("ok:{:016x}", digest)),
         Reference::Err { consumed, class } => (*consumed, class.clone()),
     };
     let res = catch_unwind(AssertUnwindSafe(|| load(image, plan.wrapper, &plan.reader, None, false, verbose)));
